@@ -114,7 +114,7 @@ func GenConfig(t *rapid.T, o GenOpts) *Config {
 	}
 	table := spec.Entries
 	cfg := &Config{
-		TwoFaced: o.TwoFaced,
+		TwoFaced:  o.TwoFaced,
 		NN:        "vnet",
 		First:     uint64(rapid.IntRange(0, 40).Draw(t, "first")),
 		TableKind: spec.Kind,
